@@ -209,7 +209,7 @@ def r19_45(ctx):
         b = f.built
         if not b:
             continue
-        for blk, t in b.calls(r"Arc::<.*>::downgrade$"):
+        for blk, t in b.calls(r"Arc::<.*>::downgrade$|SharedReadLock::<.*>::downgrade$"):
             n += 1
             root = root_fn(F, f)
             ok = root.name == "downgrade"
@@ -264,5 +264,24 @@ def r19_7(ctx, counter):
             ctx.violated("R19.7", f, "handle-field-overwritten:%s" % lf, b.line_at(loc),
                          "`%s` overwrites the `%s` field of an existing handle%s: the handle's share of the old family is never released (observable_count of the old family stays too high) " % (
                              f.path, lf, " (a ManuallyDrop, so not even drop glue releases it)" if lf == counter else ""))
+        # in-place replacement through a call: Clone::clone_from(&mut self.field, ..), mem::replace / swap / take on the field
+        for blk, t in b.calls(r"Clone>?::clone_from$|^std::mem::(replace|swap|take)$|ManuallyDrop::<.*>::(drop|take)$"):
+            if not t["args"]:
+                continue
+            is_md = bool(re.search(r"ManuallyDrop", t.get("callee") or ""))
+            root = root_fn(F, f)
+            if is_md and root.raw.get("impl_trait") == "std::ops::Drop":
+                continue  # the owner counter is taken exactly once in Drop (R19.6 / R20.7)
+            for a_ in t["args"][:2 if "swap" in (t.get("callee") or "") else 1]:
+                e = b.expr_of_op(a_)
+                x = strip(e)
+                if x[0] == "field" and x[2] in (counter, "state") and contains(x[1], lambda y: y[0] == "param" and y[1] == 1):
+                    pty = str(b.locals[1]["ty"]) if b.arg_count >= 1 else ""
+                    if "shared::SharedObservable<" not in pty and "shared::WeakObservable<" not in pty:
+                        continue
+                    n += 1
+                    ctx.violated("R19.7", root, "handle-field-overwritten:%s" % x[2], b.line_at((blk, 10 ** 6)),
+                                 "`%s` replaces the `%s` field of an existing handle through `%s`%s: the handle's share of the old family is never released, so the old observable is never closed by its remaining owners' drops and its counts stay too high" % (
+                                     root.path, x[2], (t.get("callee") or "").split("::")[-1], " (a ManuallyDrop: the old Arc is not even dropped)" if x[2] == counter else ""))
     if not n:
         ctx.holds("R19.7", None, "handle-fields-written-only-at-construction", None, "no assignment to `state` / `%s` of an existing SharedObservable or WeakObservable" % counter)
